@@ -231,7 +231,7 @@ Section Agree.
     | PConst _ => True
     | PUn u a => ok env a /\ dom_un u (partX (eval env a) nil)
     | PBin b a c => ok env a /\ ok env c /\ (b = B_div -> partX (eval env c) nil <> 0)
-    | PScal b a c => ok env a /\ (b = B_div -> IZR c <> 0)
+    | PScal b a c => ok env a /\ (b = B_div -> cval (F:=R) c <> 0)
     | PPowi a n => ok env a /\ pwX n /\ pwY n
     | PLet a body => ok env a /\ ok (env ++ (eval env a :: nil)) body
     end.
@@ -240,14 +240,14 @@ Section Agree.
   Proof.
     induction p as [i|c|u a IH|b a IHa c IHc|b a IH c|a IH n|a IHa body IHb]; intros envX envY HE Hok; simpl in *.
     - revert i Hok. induction HE as [|x y ex ey Hxy HE' IHE]; intros i Hi; simpl in *; [lia|]. destruct i; [assumption|]. apply IHE. lia.
-    - assert (EX : @castZ R (@fl_castZ R (@flF_prog R X dnX)) c = IZR c) by (unfold flF_prog; rewrite (jf_fl _ _ _ _ _ JX); reflexivity).
-      assert (EY : @castZ R (@fl_castZ R (@flF_prog R Y dnY)) c = IZR c) by (unfold flF_prog; rewrite (jf_fl _ _ _ _ _ JY); reflexivity).
+    - assert (EX : @cval R (@flF_prog R X dnX) c = cval (F:=R) c) by (unfold flF_prog; rewrite (jf_fl _ _ _ _ _ JX); reflexivity).
+      assert (EY : @cval R (@flF_prog R Y dnY) c = cval (F:=R) c) by (unfold flF_prog; rewrite (jf_fl _ _ _ _ _ JY); reflexivity).
       rewrite EX, EY. apply rel_const.
     - destruct Hok as [Ha Hd]. apply rel_un; [apply IH; assumption | assumption].
     - destruct Hok as [Ha [Hc Hd]]. apply rel_bin; [apply IHa | apply IHc | ]; assumption.
     - destruct Hok as [Ha Hc].
-      assert (EX : @castZ R (@fl_castZ R (@flF_prog R X dnX)) c = IZR c) by (unfold flF_prog; rewrite (jf_fl _ _ _ _ _ JX); reflexivity).
-      assert (EY : @castZ R (@fl_castZ R (@flF_prog R Y dnY)) c = IZR c) by (unfold flF_prog; rewrite (jf_fl _ _ _ _ _ JY); reflexivity).
+      assert (EX : @cval R (@flF_prog R X dnX) c = cval (F:=R) c) by (unfold flF_prog; rewrite (jf_fl _ _ _ _ _ JX); reflexivity).
+      assert (EY : @cval R (@flF_prog R Y dnY) c = cval (F:=R) c) by (unfold flF_prog; rewrite (jf_fl _ _ _ _ _ JY); reflexivity).
       rewrite EX, EY. apply rel_scal; [apply IH; assumption | assumption].
     - destruct Hok as [Ha [PX PY]]. apply rel_powi; [assumption|assumption|]. apply IH; assumption.
     - destruct Hok as [Ha Hb]. apply IHb; [|assumption]. apply Forall2_app; [assumption|]. constructor; [|constructor]. apply IHa; assumption.
